@@ -289,6 +289,11 @@ type stallSubject struct {
 	// expectErr: the fault-free run legitimately ends with a (non-context) error (negotiation failure)
 	expectErr bool
 	setup     func() (*stallInst, error)
+	// concurrent: the operation runs while other handshakes of the same cache and key are in flight
+	// (stall_concurrent.go); judged by the property oracle only. enterBound: how long the run is given
+	// to reach its own stalled step before the cancel fires anyway (0: stallSetupBound, no early fire)
+	concurrent bool
+	enterBound time.Duration
 }
 
 // --- plain message exchange ---------------------------------------------------------------
@@ -778,6 +783,10 @@ func stallExec(sub stallSubject, pl stallPlan) (o stallObs) {
 		scale = time.Duration(pl.scale)
 	}
 	stallReturnBound, stallCloseBound, stallSetupBound := stallReturnBound*scale, stallCloseBound*scale, stallSetupBound*scale
+	enterBound := stallSetupBound
+	if sub.enterBound > 0 {
+		enterBound = sub.enterBound * scale
+	}
 	inst, err := sub.setup()
 	if err != nil {
 		o.setupErr = err
@@ -886,11 +895,20 @@ func stallExec(sub stallSubject, pl stallPlan) (o stallObs) {
 		case r := <-resCh: // returned before reaching the stall (deadline passed early, or an error)
 			finish(r)
 			got = true
-		case <-time.After(stallSetupBound):
+		case <-time.After(enterBound):
 		}
 	}
 	switch {
 	case got:
+	case pl.sched == "during" && !o.entered && sub.concurrent:
+		// the operation is blocked somewhere before its stalled step (it has issued o.io calls): the
+		// cancel fires all the same -- "no matter at which read or write the peer stalls" -- and must
+		// unblock it
+		firedAt = time.Now()
+		fire()
+		if !awaitReturn(stallReturnBound) {
+			o.retLate = true
+		}
 	case pl.sched == "during" && o.entered:
 		firedAt = time.Now()
 		fire()
@@ -916,6 +934,17 @@ func stallExec(sub stallSubject, pl stallPlan) (o stallObs) {
 		}
 	default:
 		bound := stallSetupBound
+		if sub.concurrent && strings.HasPrefix(pl.sched, "past") {
+			bound = stallReturnBound // the context had fired before the operation began
+		}
+		if dl, has := ctx.Deadline(); sub.concurrent && pl.sched == "dline" && has {
+			// blocked before its own stalled step: the deadline passes all the same
+			firedAt = dl
+			bound = stallReturnBound
+			if u := time.Until(dl); u > 0 {
+				bound += u
+			}
+		}
 		if strings.HasPrefix(pl.sched, "ioerr") && !sub.plain {
 			// a handshake may swallow the failure and then wait for a peer that is itself waiting
 			// (nothing was cancelled): that is "blocked", and it is not worth seconds
@@ -1028,6 +1057,9 @@ func (j *stallJob) label() string {
 
 // opLine renders the model operation that corresponds to the schedule as it was realised.
 func (j *stallJob) opLines() (ops, real []string) {
+	if j.sub.concurrent {
+		return nil, nil // property oracle only (stall_concurrent.go)
+	}
 	n, k := len(j.trace), j.plan.k
 	verb := "hs"
 	if j.sub.plain {
@@ -1125,7 +1157,7 @@ func stallViolate(c *Ctx, seen map[string]int, v Violation) {
 }
 
 func runStall(c *Ctx) (err error) {
-	c.Res.Rule = "real stream operations and real Client/Server handshakes (shapes: no-auth clear/AES, CLAIMTOBE, FS, TOKEN, SSL, SSL->CLAIMTOBE fallback through both retry loops, session resumption, negotiation failure; both roles) and plain exchanges (single/multi-frame send and receive through every receive API, secrets, files, typed messages; clear and AES-GCM) over a pipe whose k-th read or write stalls, fails, or fires the cancel: for every shape a fault-free trace of n I/O calls, then every k<n under the schedules guard (cancel exactly at the entry guard of step k), during (cancel while blocked), dline (deadline passes while blocked), race (cancel inside the call, before stop()), plus never/unfired (must block), after (peer resumes, then cancel, then one more operation), ioerr (injected failure under Background and unfired contexts), past (already cancelled / deadline passed); every schedule under three KINDS of context: plain (WithCancel/WithDeadline), cause-carrying (WithCancelCause / WithDeadlineCause with a caller-supplied reason: context.Cause differs from ctx.Err()) and a derived child of a cause-carrying context; each run compared with the Lean model (result, connection closed, I/O calls issued) and judged by the property oracle (returns within a generous bound, error Is the context's error for plain operations, connection closed, no I/O after the cancel, Background adds nothing); distinct by subject+schedule+k; non-trivial = the context fired or the call stalled/failed"
+	c.Res.Rule = "real stream operations and real Client/Server handshakes (shapes: no-auth clear/AES, CLAIMTOBE, FS, TOKEN, SSL, SSL->CLAIMTOBE fallback through both retry loops, session resumption, negotiation failure; both roles) and plain exchanges (single/multi-frame send and receive through every receive API, secrets, files, typed messages; clear and AES-GCM) over a pipe whose k-th read or write stalls, fails, or fires the cancel: for every shape a fault-free trace of n I/O calls, then every k<n under the schedules guard (cancel exactly at the entry guard of step k), during (cancel while blocked), dline (deadline passes while blocked), race (cancel inside the call, before stop()), plus never/unfired (must block), after (peer resumes, then cancel, then one more operation), ioerr (injected failure under Background and unfired contexts), past (already cancelled / deadline passed); CONCURRENT handshakes: a client handshake under these schedules while 1-2 other client handshakes sharing its session cache and cache key (tag, peer, command) are stalled for good, the first at every step k0 of the shape (property oracle only); every schedule under three KINDS of context: plain (WithCancel/WithDeadline), cause-carrying (WithCancelCause / WithDeadlineCause with a caller-supplied reason: context.Cause differs from ctx.Err()) and a derived child of a cause-carrying context; each run compared with the Lean model (result, connection closed, I/O calls issued) and judged by the property oracle (returns within a generous bound, error Is the context's error for plain operations, connection closed, no I/O after the cancel, Background adds nothing); distinct by subject+schedule+k; non-trivial = the context fired or the call stalled/failed"
 	defer func() {
 		if p := recover(); p != nil {
 			c.Violate(Violation{Property: "C13", Key: "C13:panic:stall-engine", What: "panic in the stall engine or the library", Observed: fmt.Sprintf("%v\n%s", p, debug.Stack())})
@@ -1288,6 +1320,47 @@ func runStall(c *Ctx) (err error) {
 				&stallJob{sub: sub, trace: tr, plan: stallPlan{sched: "past-dline", ck: ck}})
 		}
 	}
+	// ---- concurrent handshakes (stall_concurrent.go): the same schedules for a handshake that runs while
+	// 1-2 others of the same cache and key are stalled; traces are those of the lone handshake
+	{
+		csubs, ctr := concurrentSubjects(c, hsShapes(mat), traces)
+		if only := os.Getenv("VERIF_STALL_ONLY"); only != "" {
+			var keep []stallSubject
+			for _, s := range csubs {
+				if strings.Contains(s.name, only) {
+					keep = append(keep, s)
+				}
+			}
+			csubs = keep
+		}
+		for si, sub := range csubs {
+			tr := ctr[sub.name]
+			n := len(tr)
+			traces[sub.name] = tr
+			js := []int{0, n / 2, n - 1}
+			if c.Thorough() {
+				js = append(js, c.Rng.Intn(n), c.Rng.Intn(n))
+			}
+			x := si + int(c.Seed)
+			add := func(p stallPlan) {
+				x++
+				p.ck = x % ckKinds
+				todo = append(todo, &stallJob{sub: sub, trace: tr, plan: p})
+			}
+			for ji, j := range js {
+				if !c.Thorough() && (ji+si+int(c.Seed))%3 != 0 {
+					// quick tier: one own step per subject for the timing-bound schedules (rotating), all for past-*
+					continue
+				}
+				add(stallPlan{sched: "during", k: j})
+				add(stallPlan{sched: "dline", k: j, timeout: time.Duration(50+c.Rng.Intn(40)) * time.Millisecond})
+				add(stallPlan{sched: "guard", k: j})
+			}
+			add(stallPlan{sched: "past-cancel"})
+			add(stallPlan{sched: "past-dline"})
+			c.Count("concurrent-subjects")
+		}
+	}
 	// deterministic order of execution, shuffled so that slow shapes spread over the workers
 	c.Rng.Shuffle(len(todo), func(i, j int) { todo[i], todo[j] = todo[j], todo[i] })
 	workers := 8
@@ -1354,6 +1427,12 @@ func runStall(c *Ctx) (err error) {
 		if j.sub.plain {
 			kind = "plain"
 		}
+		if j.sub.concurrent {
+			kind = "hs-concurrent"
+			if fired0 := j.plan.sched == "during" || j.plan.sched == "dline"; fired0 && !o.entered && o.setupErr == nil {
+				c.Count("hs-concurrent:own-stalled-step-not-reached")
+			}
+		}
 		c.Count("sched:" + j.plan.sched)
 		if j.plan.sched != "nofault-bg" && j.plan.sched != "never" && j.plan.sched != "ioerr-bg" {
 			c.Count("context-kind:" + ckNames[j.plan.ck])
@@ -1390,7 +1469,9 @@ func runStall(c *Ctx) (err error) {
 			maxRet = o.retAfter
 		}
 		ops, real := j.opLines()
-		if ops == nil {
+		if ops == nil && j.sub.concurrent {
+			c.Count("model-skipped:concurrent-handshake(property-oracle-only)")
+		} else if ops == nil {
 			c.Count("model-skipped:ioerr-swallowed-then-failed")
 		}
 		replay := append([]string{"# " + j.label() + " trace=" + j.trace}, ops...)
